@@ -401,3 +401,87 @@ def oblige_from(h, fns, names=None, prefix=""):
         for name, held in res.items():
             if names is None or name in names:
                 h.oblige(prefix + name, bool(held), detail=f"schedule {fn.__name__}" + (f": {detail!r}"[:400] if detail is not None and not held else ""))
+
+
+# ------------------------------------------------------------------------------------------------ discovery
+
+def discovery_search_scenarios():
+    """The real AirTouchDiscoverer.search on the virtual-time loop with a fake datagram transport: every arrival
+    pattern over the three intervals, both generations, a second search on the same object."""
+    import pyairtouch.comms.discovery as D
+    import pyairtouch.at4.comms.discovery as d4
+    import pyairtouch.at5.comms.discovery as d5
+    out = {k: True for k in (
+        "search always returns (never raises)",
+        "one request per interval until the first interval in which a console answered, at most three",
+        "every request is followed by a 0.5 s wait",
+        "each request is the generation's fixed request string",
+        "...sent to the broadcast address (or the given host) on the discovery port",
+        "the socket is closed exactly once",
+        "the result lists each answering console once",
+        "a second search with the same discoverer sends its requests again and reports only what answers now")}
+    detail = []
+    for g, mod, req, port in ((4, d4, b"HF-A11ASSISTHREAD", 49004), (5, d5, b"::REQUEST-POLYAIRE-AIRTOUCH-DEVICE-INFO:;", 49005)):
+        def resp(i, g=g, mod=mod):
+            if g == 4:
+                return mod.At4DiscoveryResponse(airtouch_id=f"id{i}", host=f"10.0.0.{i}", serial="S")
+            return mod.At5DiscoveryResponse(airtouch_id=f"id{i}", host=f"10.0.0.{i}", serial="S", name="n, x")
+        for unicast in (False, True):
+            for first in (None, 0, 1, 2):
+                for n_answers in ((0,) if first is None else (1, 2)):
+                    async def main(loop, net, first=first, n_answers=n_answers, unicast=unicast, mod=mod, resp=resp):
+                        disc = D.AirTouchDiscoverer(mod.CONFIG, **({"remote_host": "192.168.1.9"} if unicast else {}))
+                        sent, closed, box = [], [0], {}
+
+                        class T:
+                            def sendto(self, data, addr=None):
+                                sent.append((loop.time(), bytes(data), addr))
+
+                            def close(self):
+                                closed[0] += 1
+
+                        async def fake_open(responses):
+                            box["set"] = responses
+                            await asyncio.sleep(0)
+                            return T()
+                        disc._open_socket = fake_open
+                        t0 = loop.time()
+                        if first is not None:
+                            for i in range(n_answers):
+                                loop.call_later(0.5 * first + 0.1 + 0.05 * i, lambda i=i: box["set"].add(resp(i)))
+                                loop.call_later(0.5 * first + 0.3, lambda i=i: box["set"].add(resp(i)))   # duplicate datagram
+                        try:
+                            r = await disc.search()
+                            err = None
+                        except BaseException as e:  # noqa: BLE001
+                            r, err = None, e
+                        first_run = (r, err, list(sent), closed[0], loop.time() - t0)
+                        # second search with the same object: nobody answers now
+                        n0, c0 = len(sent), closed[0]
+                        try:
+                            r2 = await disc.search()
+                            err2 = None
+                        except BaseException as e:  # noqa: BLE001
+                            r2, err2 = None, e
+                        return first_run, (r2, err2, sent[n0:], closed[0] - c0)
+                    (run1, run2), net, _ = vloop.run(main)
+                    r, err, sent, closed, elapsed = run1
+                    want = 3 if first is None else first + 1
+                    addr = ("192.168.1.9" if unicast else "255.255.255.255", port)
+                    checks = {
+                        "search always returns (never raises)": err is None,
+                        "one request per interval until the first interval in which a console answered, at most three": len(sent) == want,
+                        "every request is followed by a 0.5 s wait": abs(elapsed - 0.5 * want) < 1e-6 and all(
+                            abs((b[0] - a[0]) - 0.5) < 1e-6 for a, b in zip(sent, sent[1:])),
+                        "each request is the generation's fixed request string": all(s[1] == req for s in sent),
+                        "...sent to the broadcast address (or the given host) on the discovery port": all(s[2] == addr for s in sent),
+                        "the socket is closed exactly once": closed == 1,
+                        "the result lists each answering console once": err is None and len(r) == n_answers,
+                        "a second search with the same discoverer sends its requests again and reports only what answers now":
+                            run2[1] is None and len(run2[2]) == 3 and run2[0] == [] and run2[3] == 1,
+                    }
+                    for k, v in checks.items():
+                        if not v:
+                            out[k] = False
+                            detail.append((g, unicast, first, n_answers, k[:40]))
+    return out, detail[:6]
